@@ -3087,7 +3087,9 @@ class Entity(MutableMapping[str, str]):
         # Delete these so the .by_class/name values are cleared.
         self['classname'] = 'info_null'
         del self['targetname']
+        del self['nodeid']
         self._keys.clear()
+        self._keys['classname'] = 'info_null'
         # Clear $fixup as well.
         self._fixup = None
     clear_keys = clear
